@@ -7,16 +7,18 @@ supply code is identical; `Seq` = the three open-edition variants and the base m
 `Coll` = the sg721 collection).  Every theorem is over ALL operation lists (`ops : List FOp` / `List QOp`), i.e.
 all interleavings of Mint / MintTo / MintFor / Shuffle / Purge / BurnRemaining / collection burns and transfers /
 any other message, by any sender, with ANY outcome of the gating checks (`gate : Bool` on every op: payment,
-limits, clock, whitelist, authorisation are environment inputs) and ANY randomness witness (picked position,
-shuffle result, initial permutation).  Invariant lemmas live in `Lemmas/Supply.lean`.
+limits, clock, whitelist, authorisation are environment inputs) and every randomness witness THE MODEL ACCEPTS (picked
+position, shuffle result, initial permutation: a non-permutation as initial layout or shuffle result, or a position that is
+not a current key, makes the model step fail; that `random_token_list` returns a permutation is therefore an acceptance
+condition validated by the harness, not a theorem).  Invariant lemmas live in `Lemmas/Supply.lean`.
 -/
 namespace LP
 open LP.Supply
 
 /-! ## Fixed-supply minters (vending ×6, token-merge) -/
 
-/-- The supply invariant holds in every reachable state: for every `n`, every initial permutation witness and
-every history.  (`FInv`: positions ≥ 1 and unique, remaining ids unique, in `1..=n`, never minted before; minted ids
+/-- The supply invariant holds in every reachable state: for every `n`, every ACCEPTED initial permutation
+witness (`Fixed.init n perm = some s`, i.e. `perm` is a permutation of `1..=n`) and every history.  (`FInv`: positions ≥ 1 and unique, remaining ids unique, in `1..=n`, never minted before; minted ids
 unique and in `1..=n`; counter = size of the position map; remaining + minted + burned = n; collection tokens ⊆
 minted, unique, `NumTokens` exact.) -/
 theorem C01_inv (n : Nat) (perm : List Nat) (s : Fixed) (h : Fixed.init n perm = some s) (ops : List FOp) :
@@ -111,8 +113,11 @@ theorem C01_mintFor_available_succeeds (s : Fixed) (id r : Nat) (hi : FInv s) (h
   have hr' : ¬ (id = 0 ∨ id > s.n) := by omega
   simp [Fixed.step, Fixed.takeId, hz, hr', hp, Fixed.deliver, hc]
 
-/-- "shuffle changes neither the set of remaining ids nor their number": a successful Shuffle permutes the ids over
-the same positions and touches nothing else -/
+/-- "shuffle changes neither the set of remaining ids nor their number" — MODEL SIDE ONLY. `Fixed.shuffle` accepts the
+witness `perm` iff it is a permutation of the remaining ids, so the first two conjuncts (`ids.Perm`, `length`) RESTATE that
+guard (`Fixed.shuffle_spec`); that the real `random_token_list` permutes is validated by the harness only (correspondence +
+monitor `shuffle-changed-ids`). The content proved here: an accepted Shuffle keeps the position keys, the counter, the mint
+log, the burn count, the collection and `n`. -/
 theorem C01_shuffle_frame (s s' : Fixed) (g : Bool) (perm : List Nat) (h : s.step (.shuffle g perm) = some s') :
     s'.ids.Perm s.ids ∧ s'.ids.length = s.ids.length ∧ s'.keys = s.keys ∧ s'.mintable = s.mintable ∧
       s'.minted = s.minted ∧ s'.burned = s.burned ∧ s'.coll = s.coll ∧ s'.n = s.n := by
